@@ -46,6 +46,8 @@ type loaded struct {
 
 // loadProgram loads the given packages from /repo's working tree with the harness
 // files and the runtime package injected through an overlay, and builds SSA.
+var loadWithCgo bool
+
 func loadProgram(patterns []string, overlay map[string][]byte) (*loaded, error) {
 	t0 := time.Now()
 	rt, err := os.ReadFile(filepath.Join(verifDir, "support/zzverifrt/rt.go"))
@@ -64,7 +66,11 @@ func loadProgram(patterns []string, overlay map[string][]byte) (*loaded, error) 
 		}
 		env = append(env, e)
 	}
-	env = append(env, "GOTOOLCHAIN=auto", "GOFLAGS=-mod=mod", "GOPROXY=off", "CGO_ENABLED=0", "GOWORK=off")
+	cgo := "CGO_ENABLED=0"
+	if loadWithCgo {
+		cgo = "CGO_ENABLED=1" // packages whose non-cgo build does not type-check (mattn/go-sqlite3 users)
+	}
+	env = append(env, "GOTOOLCHAIN=auto", "GOFLAGS=-mod=mod", "GOPROXY=off", cgo, "GOWORK=off")
 	cfg := &packages.Config{
 		Mode:       packages.LoadAllSyntax,
 		Dir:        repoDir,
